@@ -149,6 +149,7 @@ def run(ctx):
     # ---- property on real solves ----
     viol = []
     chain_only = []
+    nraised = 0
     for n in range(n_real):
         i, o = pairs[(n * 7) % len(pairs)]
         c = tc.gen_case(rng, ndim=1 + n % 3, inner=i, outer=o, steady=False)
@@ -169,6 +170,7 @@ def run(ctx):
             # non-convergence is C17's business; a temperature outside the material table is the
             # code's own rejection of the input
             ctx.notes.append("real solve raised (not a C02 matter): %r" % (e,))
+            nraised += 1
             continue
         ctx.case(("real", n, c.ndim, c.inner, c.outer), nontrivial=True,
                  tag="real/%dD/%s-%s" % (c.ndim, c.inner, c.outer),
@@ -195,6 +197,10 @@ def run(ctx):
             viol.append((f17, what, detail))
     except RuntimeError as e:
         ctx.notes.append("F17 probe raised: %r" % (e,))
+    ctx.obligation("the real solver completed on at least 80% of the generated cases (a check that skips everything proves nothing)",
+                   nraised * 5 <= n_real, "%d of %d raised" % (nraised, n_real))
+    if nraised * 5 > n_real:
+        mism = list(mism) + [(cases[0], ["%d of %d real solves raised" % (nraised, n_real)])]
     ctx.obligation("property predicate (discrete balance, wall contributions, flux sign, area bound, insulated exactness) on real solves",
                    not [v for v in viol if "thick" not in v[1]], "%d failures; first: %s" % (len(viol), viol[0][1:] if viol else ""))
     for c, what, detail in viol[:10]:
